@@ -7,6 +7,7 @@
                    feessat <amt> <base> <prop>         -> <n>
                    maxhtlc <kind> <a> <b> <shift>      -> <n>     kind: exact adv total inf hint unknown
                    recompute <value> <n> (<base> <prop> <min>)*   -> ok <ret> <fee_msat>* | panic
+                   maxfinal <pow> <n> (<base> <prop> <max|-> <used>)*  -> ok <idx> <value> | err <idx> | panic
    ops (c16router): route <req> X <k> <scid>* B <k> <idx>* G <n> (<chan>)* R <k> (<nhops> (<scid> <node> <fee> <cltv> <blinded>)*)*
                                                        -> valid|invalid <clause>  recur=eq|ne|skip
                    noroute <req> X <k> <scid>* B <k> <idx>* G <n> (<chan>)*     -> ref=found | ref=none
@@ -27,6 +28,14 @@ def optNat (s : String) : Option Nat := if s == "-" then none else some (nat! s)
 def parseFeeHops : Nat → List String → List FeeHop → Option (List FeeHop)
   | 0, [], acc => some acc.reverse
   | n + 1, b :: p :: m :: rest, acc => parseFeeHops n rest ({ base := nat! b, prop := nat! p, htlcMin := nat! m } :: acc)
+  | _, _, _ => none
+
+/-- `(<base> <prop> <htlc_max|-> <used>)*`: private-hop candidates (capacity through the generated table) -/
+def parseMHops : Nat → List String → List MHop → Option (List MHop)
+  | 0, [], acc => some acc.reverse
+  | n + 1, b :: p :: mx :: u :: rest, acc =>
+    parseMHops n rest ({ base := nat! b, prop := nat! p,
+                         cap := candidate_capacity .privateHop .unknown ((optNat mx).getD 0) (mx == "-"), used := nat! u } :: acc)
   | _, _, _ => none
 
 def natsStr (l : List Nat) : String := String.join (l.map fun n => " " ++ toString n)
@@ -60,6 +69,14 @@ def c16fees : Drv where
              match recompute (nat! v) hops with
              | some res => "ok " ++ toString res.ret ++ natsStr res.fees
              | none => "panic")
+    | "maxfinal" :: pow :: n :: rest =>
+      ((), match parseMHops (nat! n) rest [] with
+           | none => "bad-op"
+           | some hops =>
+             match maxFinalValue (nat! pow) hops with
+             | .ok i v => "ok " ++ toString i ++ " " ++ toString v
+             | .err i => "err " ++ toString i
+             | .panic => "panic")
     | _ => ((), "bad-op")
 
 /-! ### c16router -/
